@@ -3,12 +3,14 @@
 cd "$(dirname "$0")/.." || exit 2
 id=$1; props=$2; out=/tmp/seed_${id}_out; wt=/tmp/st_$id
 mkdir -p seeded/$id
-[ -f $out/patch.diff ] && cp $out/patch.diff $out/demo.py $out/meta.json seeded/$id/ 2>/dev/null
+[ -f $out/patch.diff ] && cp $out/patch.diff $out/demo.py $out/demo $out/meta.json seeded/$id/ 2>/dev/null
+if [ -f seeded/$id/demo ]; then rundemo() { chmod +x /verif/seeded/$id/demo; PYTHONPATH=$wt timeout 900 /verif/seeded/$id/demo $wt; }
+else rundemo() { PYTHONPATH=$wt timeout 900 /venv/bin/python /verif/seeded/$id/demo.py; }; fi
 git -C /repo worktree remove --force $wt 2>/dev/null
 git -C /repo worktree add -q --detach $wt HEAD || exit 3
-echo "== demo WITHOUT change:"; (cd $wt && PYTHONPATH=$wt timeout 900 /venv/bin/python /verif/seeded/$id/demo.py >/tmp/seed_demo_wo.txt 2>&1; echo "exit=$?"; tail -2 /tmp/seed_demo_wo.txt)
+echo "== demo WITHOUT change:"; (cd $wt && rundemo >/tmp/seed_demo_wo.txt 2>&1; echo "exit=$?"; tail -2 /tmp/seed_demo_wo.txt)
 git -C $wt apply /verif/seeded/$id/patch.diff || { echo "patch does not apply"; git -C /repo worktree remove --force $wt; exit 3; }
-echo "== demo WITH change:";  (cd $wt && PYTHONPATH=$wt timeout 900 /venv/bin/python /verif/seeded/$id/demo.py >/tmp/seed_demo_with.txt 2>&1; echo "exit=$?"; tail -3 /tmp/seed_demo_with.txt)
+echo "== demo WITH change:";  (cd $wt && rundemo >/tmp/seed_demo_with.txt 2>&1; echo "exit=$?"; tail -3 /tmp/seed_demo_with.txt)
 echo "== suite WITH change:"; (cd $wt && PYTHONPATH=$wt /venv/bin/python -m pytest -q -p no:cacheprovider -n 8 2>&1 | tail -1)
 git -C /repo worktree remove --force $wt
 git -C /repo apply /verif/seeded/$id/patch.diff || { echo "patch does not apply to /repo"; exit 3; }
